@@ -103,7 +103,9 @@ for (commit, n), exp in sorted(EXPECT.items(), key=lambda kv: str(kv[0])):
 for commit, rule, prop, key in [('3b1d4ff', 'PRODUCER', 'C28', 'PRODUCER/osm.ReadPBFWithOptions#1'), ('b4ed2c5', 'PRODUCER', 'C28', 'PRODUCER/ingest.(MemoryFeatureSource).Read#1'),
         ('a17927f', 'APPLIED-UNWRAP', 'C26', 'APPLIED-UNWRAP/ui.(*EvaluateHandler).ServeHTTP#2'), ('9fa9787', 'REPEATABLE-APPLY', 'C26', 'REPEATABLE-APPLY/ingest.(ingestedYAML).Apply'),
         ('c0bc6c7', 'SIGNED-DETOUR', 'C10', 'SIGNED-DETOUR/b6.FeatureIDFromUKONSCode#parse1'),
-        ('f8e960c', 'DIVISOR-POSITIVE', 'C23', 'DIVISOR-POSITIVE/api/functions.divide#1')]:
+        ('f8e960c', 'DIVISOR-POSITIVE', 'C23', 'DIVISOR-POSITIVE/api/functions.divide#1'),
+        ('5a25d13', 'QUERY-BRACKETS', 'C20', 'QUERY-BRACKETS/api.unparseQuery#Intersection'),
+        ('2e87d95', 'QUOTE-PAIR', 'C20', 'QUOTE-PAIR/api.(*lexer).lexStringLiteral#unquote')]:
     mutants.append({'id': 'revert-%s-whole-%s' % (commit, rule), 'rule': rule, 'property': prop, 'patch': 'mutants/patches/revert-%s.diff' % commit,
                     'expect_key': key, 'why': 'puts back the defect repaired by %s (%s)' % (commit, subjects.get(commit, '?'))})
 json.dump(mutants, open('/verif/mutants/REVERT.json', 'w'), indent=1)
